@@ -9,4 +9,8 @@ import Rtsp.Props.C01
 #print axioms Rtsp.C01.loss_only_if_signalled
 #print axioms Rtsp.C01.discards_only_by_own_pause
 #print axioms Rtsp.C01.ssrc_announced_eq_carried
+#print axioms Rtsp.C01.udp_delivery
+#print axioms Rtsp.C01.udp_subsequence_partial
 #print axioms Rtsp.C01.refused_iff_full
+#print axioms Rtsp.C01.relay_end_to_end
+#print axioms Rtsp.C01.relay_order
